@@ -18,6 +18,12 @@ type Number float64
 
 // NewNumber returns a Number for the given number.
 func NewNumber(n float64) Number {
+	if n == 0 {
+		// Negative zero equals zero; keeping both apart would let a set such as
+		// {-1, 0, 1} => . * 0 retain either, and 1 / . then gives -Inf or +Inf
+		// depending on the enumeration order.
+		return Number(0)
+	}
 	return Number(n)
 }
 
